@@ -78,9 +78,9 @@ def w2(ctx, rid):
     if f is None:
         raise core.AnchorLost('process_blob_with')
     key = 'revalidate-when-requested|tools::utils::process_blob_with'
-    vals = [c for c in f.calls if c.name == 'validate_written_records']
-    okb = [core.ok_block(f, c) for c in vals]
-    okb = [x for x in okb if x is not None]
+    SV = Summ(prog, lambda c: c.name == 'validate_written_records')
+    okb = SV.events(f)
+    vals = [c for c in f.calls if c.name == 'validate_written_records' or any(t in prog.fns and t != f.id and SV.must(t) for t in prog.resolve(c))]
     # false edges of switches on the `validate_every != 0` flag
     false_edges = []
     flag_locals = set()
